@@ -199,7 +199,11 @@ func (g *c11DocGen) element(depth int, scope []string, name string) *c11GNode {
 		case 3:
 			// text immediately followed by CDATA: two adjacent text nodes
 			n.kids = append(n.kids, g.text())
-			n.kids = append(n.kids, &c11GNode{isText: true, cdata: true, text: rapid.SampledFrom([]string{"x", "1", "<b>", " "}).Draw(t, "cdata")})
+			n.kids = append(n.kids, &c11GNode{isText: true, cdata: true, text: rapid.SampledFrom([]string{"x", "1", "<b>", " ", ""}).Draw(t, "cdata")})
+			g.budget--
+		case 4:
+			// a CDATA section alone (sometimes empty: still a text token of the decoder, a text node of the tree)
+			n.kids = append(n.kids, &c11GNode{isText: true, cdata: true, text: rapid.SampledFrom([]string{"", "", "x", " "}).Draw(t, "cdataAlone")})
 			g.budget--
 		default:
 			n.kids = append(n.kids, g.element(depth+1, scope, ""))
